@@ -311,9 +311,16 @@ pub fn intersperse_until<'text, Sc, F, G, H, V, U, T>(
             return Ok(Success { lexer, value: vals });
         }
 
-        let (val, mut succ) = parser
-            (lexer, ctx.clone())?
-            .take_value();
+        let (val, mut succ) = match parser
+            (lexer.clone(), ctx.clone())
+        {
+            Ok(succ) => succ.take_value(),
+            Err(fail) => return if low == 0 {
+                Ok(Success { lexer, value: vals })
+            } else {
+                Err(fail)
+            },
+        };
         vals.push(val);
 
         while vals.len() < low {
